@@ -716,6 +716,18 @@ def check(pid, tier):
             crashes.append(r["crash"] + " @ " + r["payload"] + "\n" + r["trace"][-700:])
         else:
             obs.extend(r["obligations"])
+    # discriminated bases that are generic specialisations, local classes, or live in another module than the holder:
+    # closedness of the generated discriminator functions + the decoded classes (families shared with C17)
+    from . import c17
+
+    fam_payloads = []
+    for fam in ("generic_discriminated", "local_discriminated", "other_module_discriminator"):
+        fam_payloads += [(pid, fam, t_, "one") for t_ in c17.AWKWARD[fam][1]]
+    for r in runner.run_pool(c17.awkward_task, fam_payloads, chunks=1):
+        if "crash" in r:
+            crashes.append(r["crash"] + " @ " + r["payload"] + "\n" + r["trace"][-700:])
+        else:
+            obs.extend(r["obligations"])
     # bounded stand-in for the codec path (holder registry) and as a cross-check of the contracts
     hpts = [dataclasses.replace(p, where=w) for p in pts if p.field and p.tagger == "none" for w in ("codec",) if p.where == "annotated"]
     hpts += [p for p in pts if p.field][:: (4 if tier == "quick" else 1)]
